@@ -13,6 +13,7 @@ import (
 	"path/filepath"
 	"reflect"
 	"sync"
+	"sync/atomic"
 	"time"
 
 	"github.com/basecomplextech/baselibrary/async"
@@ -60,9 +61,30 @@ var (
 	earlyEvs []earlyEv
 )
 
+// A caller that found no usable connection without the lock is held, in every second run, before it takes the client's
+// mutex until a connect routine has added a connection (or 25 ms passed): the re-check under the lock then runs in the
+// state the fast path did not see.
+var (
+	gateOn atomic.Bool
+	addSeq atomic.Int64
+)
+
 func tracer(ev string, id bin.Bin128, a, b int64) {
+	if ev == "cg.slow" {
+		if gateOn.Load() {
+			start := addSeq.Load()
+			deadline := time.Now().Add(25 * time.Millisecond)
+			for addSeq.Load() == start && time.Now().Before(deadline) {
+				time.Sleep(100 * time.Microsecond)
+			}
+		}
+		return
+	}
 	if len(ev) < 3 || ev[:3] != "cl." {
 		return
+	}
+	if ev == "cl.add" {
+		addSeq.Add(1)
 	}
 	switch ev {
 	case "cl.begin", "cl.range", "cl.del", "cl.done", "cl.setflag", "cl.notify", "cl.call", "cl.clear":
@@ -127,6 +149,8 @@ func echo(cl mpx.Client, timeout time.Duration) status.Status {
 
 func runOnce(run int, c cfg, found func(sig, detail string)) []Event {
 	rng := rand.New(rand.NewSource(c.Seed))
+	gateOn.Store(run%2 == 1)
+	defer gateOn.Store(false)
 	opts := mpx.Default()
 	opts.Compression = false
 	opts.ClientMaxConns = c.Max
